@@ -42,7 +42,11 @@ type Env struct {
 	callOrd   map[string]int
 	loopOrd   int
 	ctxStack  []loopCtx
-	exitB     *Block // return target (runs defers, then checks ensures)
+	postB     *Block // where every path ends after its deferred calls; the contract is checked here
+	unwindTo  *Block // set while a deferred call runs: where a panic in it continues
+	mayArmed  map[*deferSite]bool
+	postFn    func()
+	pathTag   string
 	resultObs []types.Object
 	resultVs  []string // base names of result variables
 	defers    []*deferSite
@@ -83,6 +87,7 @@ type Env struct {
 }
 
 type inlineFrame struct {
+	lit     bool
 	retB    *Block
 	results []string
 	resObs  []types.Object
@@ -136,6 +141,7 @@ func (e *Env) assert(t *Term, kind, detail string, tags []string, descr string, 
 	if detail != "" {
 		name += "." + detail
 	}
+	name += e.pathTag
 	ob := &Obligation{Name: name, Tags: tags, Func: e.short, Kind: kind, Descr: descr, Pos: pos}
 	e.emit(Cmd{Kind: CAssert, T: t, Ob: ob})
 }
